@@ -11,7 +11,7 @@ BUDGET_S = {'quick': 80, 'thorough': 600}
 LEVEL = 'fault_enumeration'
 FLOORS = {
     'quick': {'distinct_nontrivial': 1200, 'fault:truncate': 1500, 'fault:bitflip-header': 250, 'fault:bitflip-usedfiles': 100, 'fault:bitflip-payload': 500,
-              'fault:killed-writer': 16, 'fault:foreign-payload': 16, 'history-steps': 300, 'cache-served-confirmed': 30,
+              'fault:killed-writer': 16, 'fault:foreign-payload': 16, 'history-steps': 300, 'cache-served-confirmed': 30, 'auto-named-constructions': 60, 'auto-named-served': 8,
               'recovered-file-valid': 1500, 'step:imported-file-edited': 16, 'step:option-changed': 100, 'step:version-changed': 16,
               'step:other-python-version': 8, 'step:grammar-changed': 40, 'loader-got-past-header': 600},
     'thorough-unused': {'distinct_nontrivial': 20000, 'fault:truncate': 20000, 'fault:bitflip-payload': 3000, 'fault:killed-writer': 200, 'history-steps': 3000,
@@ -435,6 +435,47 @@ class AlwaysAccept:
         return stream
 
 
+def auto_named(ctx, env, rng):
+    """cache=True: lark names the file itself (temp dir, user name, key hash, python version).  Constructions with the
+    same key must be served from it, a different option set or grammar must not be, behaviour always equals uncached."""
+    import tempfile
+    from lark import Lark
+    d = os.path.join(env.dir, 'autotmp')
+    shutil.rmtree(d, ignore_errors=True)
+    os.makedirs(d, exist_ok=True)
+    env.write_lib(LIB)
+    old = tempfile.tempdir
+    tempfile.tempdir = d
+    try:
+        seen = {}
+        for i in range(rng.randint(4, 8)):
+            g = rng.choice([G_MAIN, G_MAIN, G_ALT])
+            opts = dict(rng.choice(OPTION_SETS[:8]))
+            key = digest([g, sorted(opts.items())])
+            exp = env.expected(g, opts, LIB)
+            before = COUNTER[0]
+            try:
+                with wall_guard(60):
+                    l = Lark(g, parser='lalr', source_path=env.main, cache=True, **opts)
+            except Exception as e:
+                ctx.judged(['auto', g, sorted(opts.items()), i], True, [])
+                if exp[0] == 'ok':
+                    ctx.violation('constructor-raises-with-cache=True', {'auto_named': [g == G_MAIN, opts]}, {'exc': canon_exc(e)})
+                continue
+            served = COUNTER[0] == before
+            ctx.judged(['auto', g, sorted(opts.items()), i], True, [])
+            ctx.count('auto-named-constructions')
+            if exp[0] == 'ok' and behaviour(l) != exp[1]:
+                ctx.violation('behaviour-differs-from-uncached-build:cache=True', {'auto_named': [g == G_MAIN, opts]}, {'served_from_cache': served})
+            elif served and key not in seen:
+                ctx.violation('served-a-parser-cached-for-a-different-key:cache=True', {'auto_named': [g == G_MAIN, opts]}, {'files': sorted(os.listdir(d))})
+            elif key in seen and served:
+                ctx.count('auto-named-served')
+            seen[key] = True
+    finally:
+        tempfile.tempdir = old
+
+
 def history(ctx, env, rng):
     """sequence of constructions on one path with changing grammar / options / imported file / version"""
     import lark
@@ -570,6 +611,7 @@ def run_batch(ctx):
         for _ in range(3 if tier == 'quick' else 12):
             if ctx.time_left():
                 history(ctx, env, rng)
+        auto_named(ctx, env, rng)
         if b % 2 == 0:
             other_python(ctx, env, rng)
         if tier == 'thorough':
@@ -585,6 +627,10 @@ def replay(ctx, case):
     env = Env(ctx)
     rng = ctx.rng
     try:
+        if 'auto_named' in case:
+            for _ in range(30):
+                auto_named(ctx, env, rng)
+            return
         if 'history' in case:
             # histories are short and cheap: re-run the generator family (the step list documents what happened)
             for _ in range(40):
